@@ -183,6 +183,12 @@ func (p *NamePacket) UnmarshalPacketBody(buf *Buffer) (err error) {
 		return buf.Err
 	}
 
+	// Each name entry occupies at least 12 bytes (two length-prefixed strings and the attribute flags),
+	// so a count that cannot fit in the remaining data is malformed.
+	if count > buf.Len()/12 {
+		return ErrShortPacket
+	}
+
 	*p = NamePacket{
 		Entries: make([]*NameEntry, 0, count),
 	}
